@@ -5,11 +5,12 @@ cd "$WT" || exit 9
 export PYTHONPATH="$WT/src" PSYCLONE_CONFIG="$WT/config/psyclone.cfg"
 git checkout -q -- src 2>/dev/null
 git apply "$SD/patch.diff" || { echo "patch does not apply"; exit 9; }
-/venv/bin/python "$SD/demo.py" > /tmp/confirm_$$.with 2>&1; RW=$?
+mkdir -p "$WT/SEED"; cp "$SD/demo.py" "$WT/SEED/demo.py"
+/venv/bin/python "$WT/SEED/demo.py" > /tmp/confirm_$$.with 2>&1; RW=$?
 git apply -R "$SD/patch.diff"
-/venv/bin/python "$SD/demo.py" > /tmp/confirm_$$.without 2>&1; RWO=$?
+/venv/bin/python "$WT/SEED/demo.py" > /tmp/confirm_$$.without 2>&1; RWO=$?
 git apply "$SD/patch.diff"
-/venv/bin/python -m pytest -q -p no:cacheprovider -n 8 src/psyclone/tests > /tmp/confirm_$$.suite 2>&1
+if [ -n "$SUITE_RESULT" ]; then echo "$SUITE_RESULT" > /tmp/confirm_$$.suite; else /venv/bin/python -m pytest -q -p no:cacheprovider -n 8 src/psyclone/tests > /tmp/confirm_$$.suite 2>&1; fi
 SUITE=$(tail -1 /tmp/confirm_$$.suite)
 FAILED=$(grep -E "^FAILED" /tmp/confirm_$$.suite | tr '\n' ' ')
 echo "demo_with_patch_exit=$RW demo_without_patch_exit=$RWO suite: $SUITE failed: $FAILED"
